@@ -21,7 +21,7 @@ lines (TAB separated):
 name in p3binary p4binary e5m2mxfp e4m3mxfp e3m2mxfp e2m3mxfp e2m1mxfp e8m0mxfp mxint bfloat bfloatle; mode in saturate overflow.
 """
 from harness.common import *
-import struct, math, bisect
+import sys, struct, math, bisect
 from fractions import Fraction as Fr
 from bitstring import Dtype, Array
 
@@ -438,7 +438,7 @@ def execute(line: str):
     if op == "modeseq":
         return exec_modeseq(name, f[3], hex2f(f[4]))
     with options(mxfp_overflow=mode):
-        clear_caches()
+        fast_clear()
         if op == "enc":
             x = hex2f(f[4])
             out = guarded(lambda: Bits(**{name: x}), bits_code(name))
@@ -513,6 +513,37 @@ def execute(line: str):
 
 MODE_OF = {"s": "saturate", "o": "overflow"}
 
+_CACHES = None
+
+
+def fast_clear():
+    """common.clear_caches() scans the whole package on every call (0.4 ms); the set of functools caches does not change
+    within one process, so scan once (same rule: every object with a callable cache_clear on the package's modules and on
+    the classes they define) and afterwards only call their cache_clear."""
+    global _CACHES
+    if _CACHES is None:
+        found, seen = [], set()
+
+        def add(obj):
+            cc = getattr(obj, "cache_clear", None)
+            if callable(cc) and id(obj) not in seen:
+                seen.add(id(obj))
+                found.append(obj)
+        for mname, mod in list(sys.modules.items()):
+            if mod is None or not (mname == "bitstring" or mname.startswith("bitstring.")):
+                continue
+            for v in list(vars(mod).values()):
+                add(v)
+                if isinstance(v, type) and getattr(v, "__module__", "").startswith("bitstring"):
+                    for w in list(vars(v).values()):
+                        add(getattr(w, "__func__", w))
+        _CACHES = found
+    for obj in _CACHES:
+        try:
+            obj.cache_clear()
+        except Exception:                                           # noqa: BLE001
+            pass
+
 
 def _fromstring(cls, s):
     return cls.fromstring(s)
@@ -545,7 +576,7 @@ def exec_modeseq(name, order, x):
     bc = bits_code(name)
     o = bitstring.options
     saved = o.mxfp_overflow
-    clear_caches()
+    fast_clear()
     steps, main = [], []
     try:
         for ch in order:
